@@ -133,6 +133,20 @@ def run(ctx):
                     ty = fb.local_ty(l) if l is not None else ""
                     nb += 1
                     stores_result = ty.startswith(rowflow.ROW)
+                    if stores_result:
+                        # accepted idiom: the Err case of this very item has already left the loop (`if let Err(e) = item { return .. }`)
+                        from ..mirutil import value_root
+                        root = value_root(fb, l)
+                        for sb in lb:
+                            tt = fb.term(sb)
+                            if tt[0] != "switch":
+                                continue
+                            for st in fb.blocks[sb]["s"]:
+                                if st[0] == "a" and st[2][0] == "discr" and op_local(tt[1]) == st[1][0] and not st[2][1][1] and value_root(fb, st[2][1][0]) == root:
+                                    err_t = [tb for v, tb in tt[2] if v == 1]
+                                    err_t = err_t[0] if err_t else tt[3]
+                                    if fb.dominates(sb, c.bb) and c.bb not in fb.reachable([err_t]):
+                                        stores_result = False
                     ctx.instance("C33.5", "%s: loop at line %d pushes %s" % (i, nx.line, "Result<Row> (errors are buffered)" if stores_result else ty[:50]))
                     ctx.oblige(not stores_result, "C33.5", "%s:loop@%s:buffers-errors" % (fb.root or i, site_key(nx)),
                                "the loop stores Err items of the row stream in its buffer instead of failing at once: after sorting, a later "
